@@ -27,6 +27,7 @@ def prove_lemmas(names, prop, tier):
             ctx = Ctx(finite, scope=dict(R.scope), enums=dict(R.enums))
             ctx.infinite_sorts = set(getattr(R, 'infinite_sorts', ()))
             e = Exec(R, ctx, None, prop=None, timeout_ms=30000 if tier == 'quick' else 300000)
+            e.reveal_all = True          # lemmas are about the spec functions themselves: their definitions are unfolded
             install_axioms(e)
             st = State()
             binds = {}
